@@ -396,19 +396,57 @@ fn cmd_run(args: &[String]) -> i32 {
     let t_sweep = t1.elapsed().as_secs_f64();
 
     // ---- samples for the evidence file --------------------------------------------------------------
+    // one small run of every mode (mixed with faults, cluster, fault-free twin, fibre walk, span probe), written out
     let mut samples = Vec::new();
-    for k in [0u64, 1, 2, 3, 4, 5, 6, 7] {
-        if k >= t.runs || samples.len() >= 3 {
+    let mode_names = ["mixed_with_faults", "cluster", "fault_free_twin", "fibre_walk", "span_probe"];
+    for mode in 0u8..5 {
+        for k in 0..t.runs.min(5000) {
+            let run = from + k;
+            let spec = gen::make_run(seed, run, &menu);
+            let ty = by_name(&menu, &spec.ty).unwrap();
+            let planned: usize = spec.ops.iter().map(|o| o.calls.len()).sum();
+            let small = match mode {
+                1 => planned <= 60 && ty.bytes() <= 16,
+                3 | 4 => ty.bytes() <= 16,
+                _ => planned <= 12 && ty.bytes() <= 32,
+            };
+            if spec.mode != mode || !small {
+                continue;
+            }
+            let r = exec::run(&spec, ty, true);
+            if mode >= 3 && r.calls > 4000 {
+                continue;
+            }
+            let mut log: Vec<J> = r.log.iter().take(40).map(|l| J::s(l)).collect();
+            if r.log.len() > 40 {
+                log.push(J::s(&format!("... {} more line(s)", r.log.len() - 40)));
+            }
+            let mut sj = spec.to_json();
+            if mode == 1 {
+                // a cluster's planned words are long; keep the first few calls
+                if let Some(J::Arr(ops)) = sj.get("ops").cloned() {
+                    let mut ops2 = ops.clone();
+                    if let Some(J::Arr(calls)) = ops2[0].get("calls").cloned() {
+                        let n = calls.len();
+                        let mut c2: Vec<J> = calls.into_iter().take(6).collect();
+                        c2.push(J::s(&format!("... {} more planned word(s)", n.saturating_sub(6))));
+                        ops2[0].put("calls", J::Arr(c2));
+                    }
+                    sj.put("ops", J::Arr(ops2));
+                }
+            }
+            samples.push(
+                J::obj()
+                    .set("mode", J::s(mode_names[mode as usize]))
+                    .set("run", J::Int(run as i128))
+                    .set("calls_made", J::Int(r.calls as i128))
+                    .set("draw_requests", J::Int(r.draws as i128))
+                    .set("spec", sj)
+                    .set("event_log", J::Arr(log))
+                    .set("fingerprint", J::s(&format!("{:016x}", r.fingerprint))),
+            );
             break;
         }
-        let run = from + k;
-        let spec = gen::make_run(seed, run, &menu);
-        if spec.ops.iter().map(|o| o.calls.len()).sum::<usize>() > 12 {
-            continue;
-        }
-        let ty = by_name(&menu, &spec.ty).unwrap();
-        let r = exec::run(&spec, ty, true);
-        samples.push(J::obj().set("run", J::Int(run as i128)).set("spec", spec.to_json()).set("event_log", J::Arr(r.log.iter().map(|l| J::s(l)).collect())).set("fingerprint", J::s(&format!("{:016x}", r.fingerprint))));
     }
 
     // Reach probes. Those that depend only on the harness (fault kinds actually fired, every op kind executed) must
